@@ -534,8 +534,8 @@ impl Property for C02 {
     }
     fn budget(&self, tier: Tier) -> (u32, usize) {
         match tier {
-            Tier::Quick => (12_000, 8),
-            Tier::Thorough => (400_000, 16),
+            Tier::Quick => (20_000, 8),
+            Tier::Thorough => (500_000, 16),
         }
     }
     fn run(&self, case: &RlCase) -> Report {
@@ -571,8 +571,8 @@ impl Property for C15 {
     }
     fn budget(&self, tier: Tier) -> (u32, usize) {
         match tier {
-            Tier::Quick => (12_000, 8),
-            Tier::Thorough => (400_000, 16),
+            Tier::Quick => (20_000, 8),
+            Tier::Thorough => (500_000, 16),
         }
     }
     fn run(&self, case: &RlCase) -> Report {
